@@ -31,8 +31,9 @@ type vhKernel struct {
 func (k *vhKernel) EnqueueSQE(sqe *bus.SQE[t_api.Request, t_api.Response]) {
 	k.calls++
 	k.req = sqe.Submission
-	k.res, k.err = coroutines.VXDispatch(k.c, sqe.Submission)
-	sqe.Callback(k.res, k.err)
+	var n int
+	k.res, k.err, n = coroutines.VXProcess(k.c, sqe)
+	vx.Assert(n == 1, "C12:kernel-answers-an-accepted-request-exactly-once-per-tick")
 }
 
 func (k *vhKernel) DequeueCQE(cq <-chan *bus.CQE[t_api.Request, t_api.Response]) *bus.CQE[t_api.Request, t_api.Response] {
